@@ -34,7 +34,7 @@ type vcase struct {
 	OptPos   int   `json:"optpos"`
 	TC       bool  `json:"tc"`
 	Compress bool  `json:"compress"`
-	Q        int   `json:"q"` // question section: 0 one ordinary, 1 none, 2 two, 3 one long name
+	Q        int   `json:"q"` // question section: 0 one ordinary, 1 none, 2 two, 3 / 4 one long name
 	Sel      sel   `json:"sel"`
 }
 
@@ -133,8 +133,9 @@ func build(c *vcase) *dns.Msg {
 	return m
 }
 
-// longQ: 3 x 55 octets + example.org. = a question name of 181 wire octets
-var longQ = strings.Repeat("q", 54) + "." + strings.Repeat("r", 54) + "." + strings.Repeat("s", 54) + ".example.org."
+// longQ: 3 x 56 octets + example.org. = a question name of 181 wire octets; header (12) + question (185) + the
+// large OPT (315) are then exactly 512 octets
+var longQ = strings.Repeat("q", 55) + "." + strings.Repeat("r", 55) + "." + strings.Repeat("s", 55) + ".example.org."
 
 func setQuestions(m *dns.Msg, q int) {
 	switch q {
@@ -144,6 +145,8 @@ func setQuestions(m *dns.Msg, q int) {
 		m.Question = append(m.Question, dns.Question{Name: "second.example.org.", Qtype: dns.TypeAAAA, Qclass: dns.ClassINET})
 	case 3:
 		m.Question[0].Name = longQ
+	case 4: // header + question + large OPT exceed 512: nothing fits, the OPT must still be there
+		m.Question[0].Name = strings.Repeat("p", 29) + "." + longQ
 	}
 }
 
